@@ -6,6 +6,7 @@ import (
 	"strconv"
 	"strings"
 	"testing"
+	"time"
 
 	"github.com/mgtv-tech/redis-GunYu/config"
 	"github.com/mgtv-tech/redis-GunYu/pkg/redis/checkpoint"
@@ -34,6 +35,10 @@ type crashScenario struct {
 	MaxCrashes int      `json:"max_crashes"`
 	IdleBias   bool     `json:"idle_bias,omitempty"`
 	Base       string   `json:"base,omitempty"` // stream start offset: "" = 1000, "0", "big" = 2^32+7
+	Stops      bool     `json:"stops,omitempty"` // a fault may also be an orderly stop (context cancelled, source closed) between two stream events
+	Kill       bool     `json:"kill,omitempty"`  // the faults are connection losses (the target stays up, the tool keeps running) instead of crashes
+	Bulk       bool     `json:"bulk,omitempty"`  // all items of one symbol arrive in one read
+	BigTxn     int      `json:"big_txn,omitempty"` // commands in the transaction of symbol tL (0 = 1100)
 }
 
 type runRec struct {
@@ -45,6 +50,8 @@ type runRec struct {
 	BootErr    string // boot failed (e.g. crashed during boot)
 	SendErr    string
 	Crashed    bool
+	Stopped    bool   // ended by an orderly stop
+	Retry      bool   // not a restart: the same run going on after a connection loss (the sender retried)
 	Completed  bool // stream fed to the end and flushed
 }
 
@@ -65,6 +72,7 @@ type crashRec struct {
 	Events int
 	Early  *mc.Result // a violation detected while driving (e.g. resume offset not a boundary)
 	Marks  []string   // event -> request seq reached (debugging aid, part of replay output)
+	Merged int        // crash points represented by their predecessor (no effect on the target's data)
 }
 
 type crashCtl struct {
@@ -73,6 +81,8 @@ type crashCtl struct {
 	left    int // crashes still allowed
 	marks   *[]string
 	nEvents int
+	kill    bool // faults are connection losses
+	merged  int  // crash points not explored because the target holds the same data as at the point before
 }
 
 // event runs do() as one crashable step. It returns true when the crash point
@@ -88,6 +98,17 @@ func (x *crashCtl) event(tag string, do func()) bool {
 		return false
 	}
 	j, n := x.ch.Peek(tag)
+	if j > 0 && x.kill {
+		k0 := srv.Killed
+		srv.PlanRef().KillAt = seq0 + j - 1
+		do()
+		x.ch.ChooseCost(tag, make([]int, n))
+		if srv.Killed == k0 {
+			panic(fmt.Sprintf("connection-loss point %s=%d/%d not reached (burst shorter than recorded)", tag, j, n))
+		}
+		x.left--
+		return true
+	}
 	if j > 0 {
 		srv.PlanRef().CrashAfter = seq0 + j - 1 // j=1: before the first request of the burst
 		do()
@@ -103,6 +124,21 @@ func (x *crashCtl) event(tag string, do func()) bool {
 	do()
 	b := srv.NumReqs() - seq0
 	costs := make([]int, b+1)
+	if x.kill && seq0 == 0 && b > 0 {
+		costs[1] = 1 << 20 // KillAt 0 means never
+	}
+	if !x.kill {
+		// a crash right after a MULTI or a queued command leaves the target with the same data as a
+		// crash right before it (the open transaction is discarded and the tool is gone): such points
+		// are represented by the point in front of them
+		ne := srv.NoEffect(seq0)
+		for j := 2; j <= b && j-2 < len(ne); j++ {
+			if ne[j-2] {
+				costs[j] = 1 << 20
+				x.merged++
+			}
+		}
+	}
 	x.ch.ChooseCost(tag, costs)
 	return false
 }
@@ -154,11 +190,16 @@ func boundaryIndex(items []sItem, off int64) int {
 // where the explorer says, restart, ... until a run completes the stream.
 func crashExec(t *testing.T, scn crashScenario, ch *mc.Chooser) (rec crashRec, machinery string) {
 	setBase(scn.Base)
+	bigTxnCmds = 1100
+	if scn.BigTxn > 0 {
+		bigTxnCmds = scn.BigTxn
+	}
 	msg := bubble(t, func() {
 		env := newAofEnv(t)
 		items := buildStream(scn.Syms)
 		rec.Items = items
-		ctl := &crashCtl{env: env, ch: ch, left: scn.MaxCrashes, marks: &rec.Marks}
+		ctl := &crashCtl{env: env, ch: ch, left: scn.MaxCrashes, marks: &rec.Marks, kill: scn.Kill}
+		defer func() { rec.Merged = ctl.merged }()
 		ticks := tickNames(scn.Cfg)
 		cfg := scn.Cfg.outputConfig(cpKeyName)
 		for runNo := 0; runNo < scn.MaxCrashes+2; runNo++ {
@@ -170,7 +211,12 @@ func crashExec(t *testing.T, scn crashScenario, ch *mc.Chooser) (rec crashRec, m
 			var ro *RedisOutput
 			var sp StartPoint
 			var bootErr error
-			crashed := ctl.event(fmt.Sprintf("crash.boot%d", runNo), func() {
+			bootEvent := ctl.event
+			if scn.Kill {
+				// connection losses are placed in the replay only (a start-up that fails is reported, C02 says nothing about it)
+				bootEvent = func(tag string, do func()) bool { do(); return false }
+			}
+			crashed := bootEvent(fmt.Sprintf("crash.boot%d", runNo), func() {
 				cli, err := client.NewRedis(cfg.Redis)
 				if err != nil {
 					bootErr = err
@@ -231,10 +277,41 @@ func crashExec(t *testing.T, scn crashScenario, ch *mc.Chooser) (rec crashRec, m
 			step := 0
 			doEvent := func(f func()) bool {
 				step++
-				return ctl.event(fmt.Sprintf("crash.r%d.e%d", runNo, step), f)
+				hit := ctl.event(fmt.Sprintf("crash.r%d.e%d", runNo, step), f)
+				if hit && scn.Kill {
+					// the connections are gone, the target is up: let the sender's retry sleeps elapse
+					time.Sleep(5 * time.Second)
+					aofWait()
+					run.poll()
+					if !run.ended {
+						// the run goes on after the sender retried: what it applies from here on is
+						// judged like a resumed run (it may repeat what the lost attempt had sent)
+						cut := rr
+						cut.Crashed = true
+						rec.Runs = append(rec.Runs, cut)
+						rr.FirstSeq = env.srv.NumReqs() + 1
+						rr.Retry = true
+						return false
+					}
+				}
+				return hit
+			}
+			stopHere := func() bool {
+				if !scn.Stops || ctl.left <= 0 || run.pos == startIdx {
+					return false
+				}
+				if ch.ChooseFree(fmt.Sprintf("r%d.stop%d", runNo, run.pos), 2) == 1 {
+					ctl.left--
+					return true
+				}
+				return false
 			}
 			maxTicks := scn.Max
+			stopped := false
 			for run.pos < len(items) && !run.ended && !crashed {
+				if stopped = stopHere(); stopped {
+					break
+				}
 				fired := 0
 				for fired < maxTicks && !crashed && !run.ended {
 					a := ch.Choose(fmt.Sprintf("r%d.pre%d.%d", runNo, run.pos, fired), 1+len(ticks))
@@ -247,14 +324,25 @@ func crashExec(t *testing.T, scn crashScenario, ch *mc.Chooser) (rec crashRec, m
 				if crashed || run.ended {
 					break
 				}
+				if scn.Bulk {
+					n := 1
+					for run.pos+n < len(items) && items[run.pos+n].Sym == items[run.pos].Sym {
+						n++
+					}
+					crashed = doEvent(func() { run.release(n) })
+					continue
+				}
 				two := 0
 				if run.pos+1 < len(items) {
 					two = ch.Choose(fmt.Sprintf("r%d.two%d", runNo, run.pos), 2)
 				}
 				crashed = doEvent(func() { run.release(1 + two) })
 			}
+			if !stopped && !crashed && !run.ended {
+				stopped = stopHere()
+			}
 			fired := 0
-			for fired < maxTicks && !crashed && !run.ended {
+			for fired < maxTicks && !crashed && !run.ended && !stopped {
 				a := ch.Choose(fmt.Sprintf("r%d.post.%d", runNo, fired), 1+len(ticks))
 				if a == 0 {
 					break
@@ -262,16 +350,17 @@ func crashExec(t *testing.T, scn crashScenario, ch *mc.Chooser) (rec crashRec, m
 				crashed = doEvent(func() { run.tick(ticks[a-1]) })
 				fired++
 			}
-			if !crashed && !run.ended {
+			if !crashed && !run.ended && !stopped {
 				crashed = doEvent(func() { run.tick("batch") })
 			}
-			if !crashed && !run.ended && !scn.Cfg.Txn {
+			if !crashed && !run.ended && !scn.Cfg.Txn && !stopped {
 				// ticker mode: let the checkpoint ticker store the final position
 				crashed = doEvent(func() { run.tick("cp") })
 			}
+			rr.Stopped = stopped
 			rr.Crashed = crashed
 			early := run.ended
-			rr.Completed = !crashed && !early && run.pos == len(items)
+			rr.Completed = !crashed && !early && !stopped && run.pos == len(items)
 			run.stop()
 			if run.err != nil {
 				rr.SendErr = run.err.Error()
@@ -317,7 +406,7 @@ func (rec *crashRec) describe() map[string]interface{} {
 func (rec *crashRec) obs() uint64 {
 	parts := reqStrings(rec.Exec)
 	for _, r := range rec.Runs {
-		parts = append(parts, fmt.Sprintf("run:%d:%v:%v", r.Offset, r.FullSync, r.Crashed))
+		parts = append(parts, fmt.Sprintf("run:%d:%v:%v:%v", r.Offset, r.FullSync, r.Crashed, r.Stopped))
 	}
 	// mtime values depend on jittered virtual sleeps: mask them
 	for i, p := range parts {
@@ -334,7 +423,7 @@ func (rec *crashRec) obs() uint64 {
 func (rec *crashRec) crashes() int {
 	n := 0
 	for _, r := range rec.Runs {
-		if r.Crashed {
+		if r.Crashed || r.Stopped {
 			n++
 		}
 	}
